@@ -480,18 +480,24 @@ class Tdf:
 
         # delete entry
         self.entries.remove(oldEntry)
-        self.handler.seek(64 + 288 * oldEntryPos, 0)
-        # update all the offsets of the entries preceding the removed one
-        for entry in self.entries[oldEntryPos:]:
-            entry.offset -= oldEntry.size
+        self.handler.seek(64, 0)
+        # every entry whose data lie after the removed block moves up by its
+        # size, wherever that entry is in the table (files written by other
+        # software need not list their blocks in storage order)
+        for entry in self.entries:
+            if entry.offset > oldEntry.offset:
+                entry.offset -= oldEntry.size
             entry._write(self.handler)
 
         # the new unused slot points at the end of the data, computed from
         # the already shifted entries
-        newOffset = (
-            self.entries[-1].offset + self.entries[-1].size
-            if self.entries
-            else (64 + 288 * self.nEntries)
+        newOffset = max(
+            [64 + 288 * self.nEntries]
+            + [
+                entry.offset + entry.size
+                for entry in self.entries
+                if entry.type != BlockType.unusedSlot
+            ]
         )
 
         # add new unused slot at the end
